@@ -56,7 +56,17 @@ Inductive case :=
      upstreams RECEIVED, in arrival order (position of the upstream, TCP?, CD, additional section as
      the wire carried it), and the subnet options per OPT record of the reply the client got *)
 | CaseExitFwd (b : bargs) (remote : ipb) (dnssec cd : bool) (extra : list rr) (ups : list N)
-              (sent : list wire_query) (reply : list N).
+              (sent : list wire_query) (reply : list N)
+  (* a client query (remote, additional section) for www.example.org. through the production chain
+     [edns, cache, resolver] (cold) against scripted authoritative servers on loopback sockets — root, TLD,
+     zone; [hops]: which of them answers truncated over UDP first; [glueless]: the zone's delegation
+     names a nameserver without an address; [alias]: the client's name is a CNAME for a name in
+     another zone (the cache layer chases it): every query the servers RECEIVED, in arrival order (on the
+     client's own line = the question is a suffix of the client's name; position of the server in its
+     line; TCP?; additional section as the wire carried it), and the subnet options per OPT record of
+     the reply the client got *)
+| CaseExitRes (b : bargs) (remote : ipb) (extra : list rr) (glueless alias : bool) (hops : list N)
+              (sent : list res_query) (reply : list N).
 
 (* ------------------------------------------------------------------ equality *)
 Definition ipb_eqb (a b : ipb) : bool := (ipb_len a =? ipb_len b) && (ipb_val a =? ipb_val b).
@@ -95,6 +105,9 @@ Definition build_result_eqb (a b : build_result) : bool :=
 Definition wq_eqb (a b : wire_query) : bool :=
   (wq_server a =? wq_server b) && Bool.eqb (wq_tcp a) (wq_tcp b) && Bool.eqb (wq_cd a) (wq_cd b) &&
   list_eqb rr_eqb (wq_extra a) (wq_extra b).
+Definition rq_eqb (a b : res_query) : bool :=
+  Bool.eqb (rq_own a) (rq_own b) && (rq_server a =? rq_server b) && Bool.eqb (rq_tcp a) (rq_tcp b) &&
+  list_eqb rr_eqb (rq_extra a) (rq_extra b).
 Definition dperm_eqb (a b : dperm) : bool :=
   Bool.eqb (dp_cut a) (dp_cut b) && Bool.eqb (dp_proof a) (dp_proof b) && Bool.eqb (dp_create a) (dp_create b).
 Definition obs_eqb (a b : obs) : bool :=
@@ -185,6 +198,9 @@ Definition check_case (c : case) : bool :=
          failure_consults_shared (policy_of b) remote opts)
   | CaseExitFwd b remote dnssec cd extra ups sent reply =>
       list_eqb wq_eqb (exit_forwarder b remote dnssec cd extra ups) sent &&
+      list_eqb N.eqb (exit_reply_counts b remote extra) reply
+  | CaseExitRes b remote extra glueless alias hops sent reply =>
+      list_eqb rq_eqb (exit_resolver b remote extra glueless alias hops) sent &&
       list_eqb N.eqb (exit_reply_counts b remote extra) reply
   end.
 
@@ -493,5 +509,14 @@ Definition spec_case (c : case) : bool :=
          client's reply has no subnet option *)
       forallb (fun q => upstream_ok (policy_of b) (addr_from_slice_unmap remote) extra (wq_extra q) &&
                         (count_opt (wq_extra q) =? 1)%nat) sent &&
+      forallb (fun n => n =? 0) reply && (length reply <=? 1)%nat
+  | CaseExitRes b remote extra glueless alias hops sent reply =>
+      (* a query on the client's own line obeys the privacy rule for an upstream-bound request; a question
+         of the resolver's own carries one OPT and no option at all (nothing of the client rides on it) —
+         both judged on the octets that arrived; the client's reply has no subnet option *)
+      forallb (fun q => (if rq_own q
+                         then upstream_ok (policy_of b) (addr_from_slice_unmap remote) extra (rq_extra q)
+                         else match all_options (rq_extra q) with [] => true | _ => false end) &&
+                        (count_opt (rq_extra q) =? 1)%nat) sent &&
       forallb (fun n => n =? 0) reply && (length reply <=? 1)%nat
   end.
